@@ -160,24 +160,50 @@ class Int2Bytes:
   props = ["C09", "C18"]
 
 
-@contract(f"{U}::AttachFactors")
-class AttachFactors:
-  frame_props = ["C01", "C16"]
-  """Body uses str(set)/ast.literal_eval/format: outside the VC generator's string reach -> assumed frame contract,
-  exercised by the bounded tier (bounded/c16.py: attach_factors_roundtrip)."""
-  params = {"test_info": "rec:TestInfo", "info_name": "str", "factors": "opaque"}
-  returns = "none"
-  assumed = True
-  assumed_why = ("string round trip str(set)/ast.literal_eval not modelled; frame only: test_results, weak and version "
-                 "untouched (bounded tier checks factors' = old | new)")
-  modifies = ["test_info.attached_info"]
-  ensures = ["wf_info(test_info)"]
+# the decoded factor set recorded under `nm`: x is in it  <=>  some entry named nm has a value whose hex-string set
+# contains x (library theory: str(S) / ast.literal_eval round trip for sets of lowercase hex strings)
+macro("recorded", ["ti", "nm", "x"],
+      "exists(j, 0, len(ti.attached_info), ti.attached_info[j].info_name == nm and hexset_has(ti.attached_info[j].value, x))")
 
 
 @contract(f"{U}::GetAttachedFactors")
 class GetAttachedFactors:
+  """Proved against the body: None exactly when no entry carries the name; otherwise the decoded set of that entry."""
   frame_props = ["C01", "C16"]
   params = {"test_info": "rec:TestInfo", "info_name": "str"}
-  returns = "opaque"
-  assumed = True
-  assumed_why = "ast.literal_eval round trip not modelled (bounded tier)"
+  returns = "Optional[intset]"
+  requires = ["wf_info(test_info)"]
+  ensures = [("C01,C16", "(result is None) == forall(j, 0, len(test_info.attached_info), "
+                         "test_info.attached_info[j].info_name != info_name)"),
+             ("C01,C16", "result is None or forall((x,), True, member(result, x) == recorded(test_info, info_name, x))")]
+  props = ["C01", "C16"]
+
+
+@contract(f"{U}::AttachFactors")
+class AttachFactors:
+  """Proved against the body (serialisation through the set-of-hex-strings theory): afterwards the set recorded under
+  info_name is exactly the OLD recorded set united with the new factors - re-running never clears a recorded factor -,
+  entries under other names, result entries, weak flag and version are untouched."""
+  frame_props = ["C01", "C16"]
+  params = {"test_info": "rec:TestInfo", "info_name": "str", "factors": "ref:IntIterable"}
+  returns = "none"
+  requires = ["wf_info(test_info)"]
+  modifies = ["test_info"]
+  ensures = [
+      ("C01,C16", "wf_info(test_info)"),
+      ("C01,C16", "forall((x,), True, recorded(test_info, info_name, x) == "
+                  "(iter_has(factors, x) or old(recorded(test_info, info_name, x))))"),
+      ("C16", "test_info.weak == old(test_info.weak) and "
+              "test_info.paranoid_lib_version == old(test_info.paranoid_lib_version)"),
+      ("C16", "len(test_info.test_results) == old(len(test_info.test_results)) and "
+              "forall(j, 0, len(test_info.test_results), "
+              "test_info.test_results[j].test_name == old(test_info.test_results[j].test_name) and "
+              "test_info.test_results[j].result == old(test_info.test_results[j].result) and "
+              "test_info.test_results[j].severity == old(test_info.test_results[j].severity))"),
+      ("C16", "len(test_info.attached_info) >= old(len(test_info.attached_info)) and "
+              "forall(j, 0, old(len(test_info.attached_info)), "
+              "test_info.attached_info[j].info_name == old(test_info.attached_info[j].info_name) and "
+              "(test_info.attached_info[j].value == old(test_info.attached_info[j].value) or "
+              "test_info.attached_info[j].info_name == info_name))"),
+  ]
+  props = ["C01", "C16"]
